@@ -133,8 +133,16 @@ def field_path(t, root_arg=1):
     for _ in range(40):
         k = t[0]
         if k == "field":
+            inner = strip(t[1])
+            if inner[0] == "agg" and inner[1][0] == "tuple":
+                # `match (&self.a, &other.a) { (X(l), X(r)) => .. }`: element of a tuple built on the spot
+                try:
+                    t = strip(inner[2][int(t[2])])
+                    continue
+                except (ValueError, IndexError, TypeError):
+                    return None
             names.append(str(t[2]))
-            t = strip(t[1])
+            t = inner
         elif k == "downcast":
             t = strip(t[1])
         elif k == "call" and t[1] and t[1] in GETTERS and t[3]:
@@ -757,7 +765,13 @@ def check_canonical_order(ctx, F, R):
             top = f.split(".")[0]
             if top not in cfields:
                 cfields.append(top)
-        sfields = [fx.split(".")[0] for fx, fy, k in seq]
+        sfields = []
+        kinds_of = {}
+        for fx, fy, k in seq:
+            top = fx.split(".")[0]
+            kinds_of.setdefault(top, set()).add(k)
+            if top not in sfields:
+                sfields.append(top)
         ctx.ob(R, adt, "canonical_cmp field order == canonical wire order", cfields == sfields,
                "%s::canonical_cmp compares fields in order %s but the canonical wire form writes %s: the "
                "canonical ordering is not the octet order of the canonical form (RFC 4034 6.3)"
@@ -780,6 +794,20 @@ def check_canonical_order(ctx, F, R):
             else:
                 ok = k not in ("name:order",)
                 why = "non-name field"
+                # a nested type that can hold a name (enum / struct generic over the name type) compared with its
+                # ordinary ordering: that ordering treats the name as a name (label order, case-insensitive), the
+                # canonical form writes it as octets
+                if ok and k.startswith("ord:"):
+                    nested = [a for a in F.adts.values() if a["path"].split("::")[-1] == k[4:] and a["path"].startswith(("rdata::", "base::"))]
+                    for a in nested:
+                        ftys = [f["ty"] for v in a["variants"] for f in v["fields"]]
+                        if any(re.match(r"^[A-Z][A-Za-z]*$", ty.strip()) and ty.strip() not in ("Octs", "O", "Octets") for ty in ftys) \
+                                and any("Name" in (p_ or "") or (p_ or "") in ("N",) for p_ in re.findall(r"[A-Z][A-Za-z]*", " ".join(ftys))):
+                            if any(ty.strip() in ("N", "Name", "NN") for ty in ftys) and not \
+                                    (kinds_of.get(top, set()) & {"name:plain", "name:lower"} or any(x.startswith("canon:") for x in kinds_of.get(top, set()))):
+                                ok = False
+                                why = ("the field's type can hold a domain name and is compared with its ordinary ordering (name order, "
+                                       "case-insensitive); the canonical form writes the name as octets")
             ctx.ob(R, adt, "canonical_cmp kind of %s" % top, ok,
                    "%s.%s: canonical form writes it as %s but canonical_cmp compares it with %s (%s)"
                    % (short, top, ck, k, why), where=cmpb.where())
